@@ -20,7 +20,7 @@ import sys
 import tempfile
 
 from . import common
-from .c12 import Collector, hx, kind_of, quiet, random_structure, unhx
+from .c12 import TIE_C16, Collector, hx, kind_of, quiet, random_structure, replay_tie, tie_scope, unhx
 from .common import LEAN, VERIF
 
 GEN = os.path.join(LEAN, "DS", "Gen")
@@ -345,8 +345,9 @@ def make_sources(ck):
 
     rng = ck.rng
     out = []
-    nvalid = 2 if ck.tier == "quick" else 8
-    ncorr = 2 if ck.tier == "quick" else 8
+    wide = getattr(ck, "widen", False)       # the source tie is broken: search more widely
+    nvalid = (4 if wide else 2) if ck.tier == "quick" else 8
+    ncorr = (4 if wide else 2) if ck.tier == "quick" else 8
     for g in outputFormats():
         for k in range(nvalid):
             s = random_structure(rng, k)
@@ -743,6 +744,10 @@ def run(ck):
 
     registry.main(GEN, os.path.join(GEN, "registry_report.json"))
     ok, info = ck.lean_obligations("DS.Props.C16")
+    # the models of read / readStr / write ARE the current source (transliterated by translate/src_load.py)
+    tie_ok, tie_info = tie_scope(*ck.source_tie("DS.Props.SrcLoad", groups=("load",)), TIE_C16)
+    ck.widen = not tie_ok
+    quick = ck.tier == "quick" and tie_ok
     ck.coverage["rule"] = (
         "reads: prior states {empty, atoms, titled, copy-constructed from the other class, previously loaded PDFfit file, previously loaded XCFG "
         "file with auxiliaries, user attributes} x classes {Structure, PDFFitStructure} x sources {text of each of the 7 writers from seeded "
@@ -759,9 +764,9 @@ def run(ck):
         for (label, fmt, text) in srcs:
             valid = label.startswith("valid") or label.startswith("cif-none")
             for clsname in ("Structure", "PDFFitStructure"):
-                priors = PRIORS if (valid or ck.tier != "quick") else [PRIORS[(idx + j) % len(PRIORS)] for j in (0, 3)] + ["copy-of-other-class"]
+                priors = PRIORS if (valid or not quick) else [PRIORS[(idx + j) % len(PRIORS)] for j in (0, 3)] + ["copy-of-other-class"]
                 for prior in dict.fromkeys(priors):
-                    modes = ("str", "file") if (ck.tier != "quick" or valid or idx % 2 == 0) else ("str",)
+                    modes = ("str", "file") if (not quick or valid or idx % 2 == 0) else ("str",)
                     for mode in modes:
                         idx += 1
                         cases.append({"label": label, "fmt": fmt, "text": text, "prior": prior, "cls": clsname, "mode": mode, "idx": idx})
@@ -808,11 +813,14 @@ def run(ck):
         ]
     finally:
         shutil.rmtree(tmp, ignore_errors=True)
+    ck.tie_verdict(tie_ok, tie_info, "structure.py / pdffitstructure.py (Structure.read, readStr, write; PDFFitStructure.read, readStr)")
     if not ok and not ck.violations:
         ck.fail("lean-build", "Lean obligations of C16 no longer check: %r" % (info["failed_modules"],),
                 {"kind": "proof-obligation", "theorem": info["failed_modules"], "errors": info["errors"], "log": info.get("log_tail", "")},
                 no_failing_input=True)
     ck.coverage["trusted_base"] += ["harness/c16.py rendering of object state (atoms, lattice, __dict__) into the model's values"]
+    ck.coverage["trusted_base"] += ["translate/src_load.py (symbolic execution of read / readStr / write / the PDFFitStructure post-step into "
+                                    "terms over DS.Load.Obj; DS.Props.SrcLoad identifies them with the model)"]
     ck.assumptions += [
         "the parser is a parameter of the model (its result for each source is observed by a separate call; determinism of parsers assumed)",
         "CPython semantics of __dict__.update, slice assignment and properties are modelled (DS.Load.replace / setLattice)",
@@ -830,6 +838,8 @@ def replay(path):
     kind = r.get("kind")
     want = r.get("key", "")
     col = Collector("C16")
+    if kind == "source-tie":
+        return replay_tie("C16", TIE_C16)
     if kind == "witness":
         replay_witnesses(col)
         hit = [(k, w) for k, w in col.fails if k == want]
